@@ -14,7 +14,7 @@ Oracle (plain Python, written from the documentation, not from the model): the f
 selection rule with the first failing stage as the reason, the binary-level soundness clause, and
 the documented meaning of the emulated libtest arguments."""
 import copy, json, os
-import vlib
+import vlib, gen_tie
 from vlib import coq_str, coq_list, coq_bool, decode_str
 from props.C13 import py_xxh64
 
@@ -640,6 +640,11 @@ def run(tier, seed):
     chk = vlib.Check(PROP, tier, seed)
     gate = vlib.coq_gate(PROP)
     vlib.gate_or_violation(chk, gate)
+    # DESIGN 11.7: these decision functions are regenerated from the Rust source and proved equal to the
+    # model's for all inputs; a failure is reported when the check finishes unless a stage below finds a
+    # concrete failing input
+    gen_tie.gate(chk, ['logic_or', 'logic_and', 'prefer_expression', 'from_result', 'is_match', 'filter_ignored_mismatch',
+                         'filter_match'], gate)
     binary, err = vlib.build_harness()
     if binary is None:
         chk.violation("broken-obligation", "harness-build", dict(error=err), no_input=True)
